@@ -201,7 +201,10 @@ Case(op, n, s) ==
              la == Coef(sd, 8) lb == Coef(sd, 9)
          IN [b EXCEPT !.n = nn, !.g = gg, !.h = hh] @@
             [t |-> Tab(IF isline THEN [k \in 1..nn |-> RAdd(RMul(la, xs[k]), lb)] ELSE RY(sd, 100, nn), RFlags(sd, 600, nn)),
-             type |-> ty, isline |-> isline]
+             type |-> ty, isline |-> isline,
+             \* --fitgrid x_1:(x_n-x_1)/fit:x_n (least-squares spline fit, cubic and linear): data on a straight line are fitted
+             \* exactly by every spline space, so the expectation is the same line; 0 = interpolation
+             fit |-> IF isline /\ ty \in {"cubic", "linear"} /\ nn >= 6 /\ s % 2 = 0 THEN 1 + (n % 2) ELSE 0]
     [] op = "table_switch_border" ->
          b @@ [t |-> Tab(RY(sd, 100, n), FlagFam(sd, 600, n, 0)), w |-> 1 + Pick(sd, 5, Min2(3, n - 1))]
     [] op = "average_linearop" ->         \* pipeline: table_average.sh writes x mean error flag, the next tool reads it
